@@ -146,3 +146,81 @@ Proof.
               {| buf := buf sr; off := off sr + n; skipped := skipped sr; pulled := pulled sr |} a' pr'); [|exact Hrun].
     unfold Sim0; cbn [pbuf poff buf off skipped]. split; [exact Hb|]. split; [lia|]. split; assumption.
 Qed.
+
+(* ---------- a decoder that raises by itself (argument checks, a start beyond the last frame) ----------
+   [fails_at p pr e]: the plain run of p from pr reaches a [Fail e] node, every read on the way fitting the buffer.
+   Such a run is reproduced by the stream reader on the same bytes, for both classes of programs. *)
+Fixpoint fails_at {A} (p : prog A) (pr : preader) (e : err) : Prop :=
+  match p with
+  | Ret _ => False
+  | Fail e' => e' = e
+  | Block n k => poff pr + n <= lenN (pbuf pr) /\
+                 fails_at (k (takeN n (dropN (poff pr) (pbuf pr)))) {| pbuf := pbuf pr; poff := poff pr + n |} e
+  | Skip n k => fails_at k {| pbuf := pbuf pr; poff := poff pr + n |} e
+  | Adv n k => fails_at k {| pbuf := pbuf pr; poff := poff pr + n |} e
+  | BytesLeft k => fails_at (k (Z.of_N (lenN (pbuf pr)) - Z.of_N (poff pr))%Z) pr e
+  end.
+Lemma fails_at_run {A} (p : prog A) : forall pr e, fails_at p pr e -> run_plain p pr = Err e.
+Proof.
+  induction p as [a|n k IH|n k IH|n k IH|k IH|e']; intros pr e H; cbn [fails_at run_plain] in *.
+  - contradiction.
+  - destruct H as [Hfit H]. destruct (N.leb_spec (poff pr + n) (lenN (pbuf pr))) as [_|Hbad]; [|lia]. now apply IH.
+  - now apply IH.
+  - now apply IH.
+  - now apply IH.
+  - now subst.
+Qed.
+Lemma fails_at_bind {A B} (p : prog A) (f : A -> prog B) : forall pr a pr' e,
+  run_plain p pr = Ok (a, pr') -> fails_at (f a) pr' e -> fails_at (pbind p f) pr e.
+Proof.
+  induction p as [a0|n k IH|n k IH|n k IH|k IH|e']; intros pr a pr' e Hrun Hf; cbn [pbind fails_at run_plain] in *.
+  - injection Hrun as <- <-. exact Hf.
+  - destruct (N.leb_spec (poff pr + n) (lenN (pbuf pr))) as [Hfit|]; [|discriminate]. split; [exact Hfit|].
+    eapply IH; eassumption.
+  - eapply IH; eassumption.
+  - eapply IH; eassumption.
+  - eapply IH; eassumption.
+  - discriminate.
+Qed.
+
+Theorem sim4_fail {A} q (p : prog A) : noAdv p -> forall pr sr e,
+  Sim q [] pr sr -> fails_at p pr e -> run_stream4 q p sr = Err e.
+Proof.
+  induction p as [a|n k IH|n k IH|n k IH|k IH|e']; intros Hv pr sr e HS Hf; cbn [noAdv fails_at] in *; try contradiction.
+  - destruct Hf as [Hfit Hf].
+    assert (H1 : run_plain (Block n (fun b => Ret b)) pr =
+                 Ok (takeN n (dropN (poff pr) (pbuf pr)), {| pbuf := pbuf pr; poff := poff pr + n |})).
+    { cbn [run_plain]. destruct (N.leb_spec (poff pr + n) (lenN (pbuf pr))) as [_|Hbad]; [reflexivity|lia]. }
+    assert (Hv1 : noAdv (Block n (fun b : bytes => Ret b))) by (cbn; auto).
+    destruct (sim4_fwd q _ Hv1 _ _ _ _ HS H1) as [sr1 [Hr1 HS1]].
+    change (Block n k) with (pbind (Block n (fun b => Ret b)) k). rewrite run_stream4_bind, Hr1.
+    exact (IH _ (Hv _) _ sr1 e HS1 Hf).
+  - assert (H1 : run_plain (Skip n (Ret tt)) pr = Ok (tt, {| pbuf := pbuf pr; poff := poff pr + n |})) by reflexivity.
+    assert (Hv1 : noAdv (Skip n (Ret tt))) by exact I.
+    destruct (sim4_fwd q _ Hv1 _ _ _ _ HS H1) as [sr1 [Hr1 HS1]].
+    change (Skip n k) with (pbind (Skip n (Ret tt)) (fun _ => k)). rewrite run_stream4_bind, Hr1.
+    exact (IH Hv _ sr1 e HS1 Hf).
+  - cbn [run_stream4]. pose proof HS as [Hb [Ho HI]]. rewrite Hb, app_nil_r, Ho in Hf.
+    exact (IH _ (Hv _) pr sr e HS Hf).
+  - cbn [run_stream4]. now subst.
+Qed.
+
+Theorem sim0_fail {A} q (p : prog A) : v0prog p -> forall pr sr e,
+  Sim0 q pr sr -> fails_at p pr e -> run_stream q p sr = Err e.
+Proof.
+  induction p as [a|n k IH|n k IH|n k IH|k IH|e']; intros Hv pr sr e HS Hf; cbn [v0prog fails_at] in *; try contradiction.
+  - destruct Hf as [Hfit Hf].
+    assert (H1 : run_plain (Block n (fun b => Ret b)) pr =
+                 Ok (takeN n (dropN (poff pr) (pbuf pr)), {| pbuf := pbuf pr; poff := poff pr + n |})).
+    { cbn [run_plain]. destruct (N.leb_spec (poff pr + n) (lenN (pbuf pr))) as [_|Hbad]; [reflexivity|lia]. }
+    assert (Hv1 : v0prog (Block n (fun b : bytes => Ret b))) by (cbn; auto).
+    destruct (sim0_fwd q _ Hv1 _ _ _ _ HS H1) as [sr1 [Hr1 HS1]].
+    change (Block n k) with (pbind (Block n (fun b => Ret b)) k). rewrite run_stream_bind, Hr1.
+    exact (IH _ (Hv _) _ sr1 e HS1 Hf).
+  - assert (H1 : run_plain (Adv n (Ret tt)) pr = Ok (tt, {| pbuf := pbuf pr; poff := poff pr + n |})) by reflexivity.
+    assert (Hv1 : v0prog (Adv n (Ret tt))) by exact I.
+    destruct (sim0_fwd q _ Hv1 _ _ _ _ HS H1) as [sr1 [Hr1 HS1]].
+    change (Adv n k) with (pbind (Adv n (Ret tt)) (fun _ => k)). rewrite run_stream_bind, Hr1.
+    exact (IH Hv _ sr1 e HS1 Hf).
+  - cbn [run_stream]. now subst.
+Qed.
